@@ -15,6 +15,7 @@ package main
 import (
 	"errors"
 	"fmt"
+	"net/http"
 	"slices"
 	"strconv"
 	"strings"
@@ -593,7 +594,7 @@ func runRoutable(fields []string) string {
 			vals = append(vals, unhx(v))
 		}
 	}
-	f, err := fox.New()
+	f, err := fox.New(fox.WithNoMethod(true))
 	if err != nil {
 		return "I=new-failed"
 	}
@@ -670,6 +671,68 @@ func runRoutable(fields []string) string {
 	}
 	if !infix && !slices.Equal(reported, vals) {
 		oracles = append(oracles, "reported values "+showParams(ps)+" differ from the substituted ones "+fields[2]+" for pattern "+hx(pat))
+	}
+	// the entry points that walk the tree without recording (Reverse, Iter.Reverse, the Allow loop of a 405 answer) find
+	// the route for its own instance as well
+	if r2, tsr2 := f.Reverse("GET", host, path); r2 != got || tsr2 {
+		oracles = append(oracles, "Router.Reverse does not find the route for its own instance host="+hx(host)+" path="+hx(path)+": "+lkResult(r2, tsr2))
+	}
+	nrev := 0
+	for _, r3 := range f.Iter().Reverse(slices.Values([]string{"GET"}), host, path) {
+		nrev++
+		if r3 != got {
+			oracles = append(oracles, "Iter.Reverse yields another route for the instance of "+hx(pat))
+		}
+	}
+	if nrev != 1 {
+		oracles = append(oracles, fmt.Sprintf("Iter.Reverse yields %d routes for the instance of %s", nrev, hx(pat)))
+	}
+	{
+		w := newRecWriter()
+		f.ServeHTTP(w, newReq("POST", host, path))
+		if w.code != http.StatusMethodNotAllowed || w.h.Get("Allow") != "GET" {
+			oracles = append(oracles, fmt.Sprintf("POST on the instance of the GET-only route %s: status %d Allow %q, want 405 GET", hx(pat), w.code, w.h.Get("Allow")))
+		}
+	}
+	// ... and in a state reached by a history: neighbours that extend the hostname / the path are registered and deleted
+	// again (splits and merges around the route's nodes), after which the route must serve its instance as before
+	var neigh []string
+	if hn := rte.Hostname(); hn != "" {
+		neigh = append(neigh, hn+".zz"+rte.Path(), hn+"-z"+rte.Path(), hn+"z"+rte.Path()+"q")
+		if i := strings.IndexByte(hn, '.'); i > 0 {
+			neigh = append(neigh, hn[:i]+"/other")
+		}
+	}
+	if !strings.HasSuffix(pat, "}") {
+		neigh = append(neigh, pat+"zz")
+	}
+	if i := strings.LastIndexByte(pat, '/'); i > hostLen {
+		neigh = append(neigh, pat[:i]+"/zz")
+	}
+	var added []string
+	for _, q := range neigh {
+		if _, err := f.Handle("GET", q, nopHandler); err == nil {
+			added = append(added, q)
+		}
+	}
+	for i := len(added) - 1; i >= 0; i-- {
+		if _, err := f.Delete("GET", added[i]); err != nil {
+			oracles = append(oracles, "Delete of the neighbour "+hx(added[i])+" failed: "+err.Error())
+		}
+	}
+	if len(added) > 0 {
+		got2, cc2, tsr2 := f.Lookup(foxWriter{newRecWriter()}, newReq("GET", host, path))
+		var ps2 []fox.Param
+		if cc2 != nil {
+			ps2 = slices.Collect(cc2.Params())
+			cc2.Close()
+		}
+		if I2 := showLookup(got2, ps2, tsr2); I2 != I {
+			oracles = append(oracles, "after registering and deleting the neighbours "+hx(strings.Join(added, " "))+" the instance is answered "+I2+" instead of "+I)
+		}
+		if r2, t2 := f.Reverse("GET", host, path); r2 != got || t2 {
+			oracles = append(oracles, "after registering and deleting neighbours Reverse answers "+lkResult(r2, t2))
+		}
 	}
 	out := "I=" + I + "\tJ=routed"
 	if len(oracles) > 0 {
